@@ -30,7 +30,7 @@ structure Cand where
   fileName : Bool
   off : Nat
   sz : Nat
-  deriving Repr, DecidableEq, BEq
+  deriving Repr, DecidableEq
 
 def Cand.stop (c : Cand) : Nat := c.off + c.sz
 
@@ -114,7 +114,7 @@ structure Frag where
   off : Nat          -- Offset
   lineOff : Int      -- LineOffset
   len : Nat          -- MatchLength
-  deriving Repr, DecidableEq, BEq
+  deriving Repr, DecidableEq
 
 structure LineMatch where
   line : Bytes
@@ -125,7 +125,7 @@ structure LineMatch where
   after : Bytes
   fileName : Bool
   frags : List Frag
-  deriving Repr, DecidableEq, BEq
+  deriving Repr, DecidableEq
 
 /-- Go `bytes.IndexByte(b, '\n')` -/
 def indexNL : Bytes → Option Nat
@@ -201,7 +201,7 @@ structure Chunk where
   lastLine : Nat
   minOff : Nat
   maxOff : Nat
-  deriving Repr, DecidableEq, BEq
+  deriving Repr, DecidableEq
 
 /-- one iteration of `chunkCandidates`; the accumulator is in reverse order (head = `chunks[len(chunks)-1]`) -/
 def chunkStep (nls : Newlines) (ctx : Nat) (acc : List Chunk) (m : Cand) : List Chunk :=
@@ -239,19 +239,19 @@ structure Loc where
   byteOff : Nat
   line : Nat
   col : Nat
-  deriving Repr, DecidableEq, BEq
+  deriving Repr, DecidableEq
 
 structure Range where
   start : Loc
   stop : Loc
-  deriving Repr, DecidableEq, BEq
+  deriving Repr, DecidableEq
 
 structure ChunkMatch where
   content : Bytes
   contentStart : Loc
   fileName : Bool
   ranges : List Range
-  deriving Repr, DecidableEq, BEq
+  deriving Repr, DecidableEq
 
 /-- the ranges of one chunk, threading the column cache -/
 def chunkRanges (data : Bytes) (nls : Newlines) : ColSt → List Cand → ColSt × List Range
